@@ -54,6 +54,21 @@ func parseJSONB(data []byte) (interface{}, bool) {
 	}
 	dataStart := 4 + numEntries*4
 
+	// Stored end offsets never run backwards in JSONB: otherwise an entry would
+	// have a negative length and siblings could cover the same bytes.
+	run := 0
+	for _, e := range entries {
+		v := int(e & jeOffMask)
+		if e&jeHasOff != 0 {
+			if v < run {
+				return nil, false
+			}
+			run = v
+		} else {
+			run += v
+		}
+	}
+
 	var result interface{}
 	if isObj {
 		result = parseJSONBObject(data, entries, dataStart, count)
